@@ -36,4 +36,5 @@ var (
 	unsignedOf = runop.UnsignedOf
 	execTxsig  = runop.ExecTxsig
 	txsigLine  = runop.TxsigLine
+	execTie    = runop.ExecTie
 )
